@@ -192,6 +192,7 @@ pub fn explore(pool: &Pool, spec: &Spec, kf: &Known) -> Outcome {
                 trace: false,
                 pre_image: vec![],
                 faults: vec![],
+                sched: None,
             });
         }
         let root_results = pool.run(root_jobs.clone());
@@ -276,6 +277,7 @@ pub fn explore(pool: &Pool, spec: &Spec, kf: &Known) -> Outcome {
                 trace: false,
                 pre_image: vec![],
                 faults: vec![],
+                sched: None,
                     });
                 }
                 let results = pool.run(jobs.clone());
@@ -503,7 +505,7 @@ fn run_probes(
 ) {
     let mk = |jid: &mut u64, ops: Vec<Op>| -> Job {
         *jid += 1;
-        Job { id: *jid, cfg: cfg.clone(), ops, want_digest: false, digest_each: false, want_listing: false, isolate: spec.isolate, trace: false, pre_image: vec![], faults: vec![] }
+        Job { id: *jid, cfg: cfg.clone(), ops, want_digest: false, digest_each: false, want_listing: false, isolate: spec.isolate, trace: false, pre_image: vec![], faults: vec![], sched: None }
     };
     // (node index, kind, peek index, suffix index)
     #[derive(Clone, Copy, PartialEq)]
@@ -659,6 +661,7 @@ fn run_tails(
                 trace: false,
                 pre_image: vec![],
                 faults: vec![],
+                sched: None,
             });
             meta.push((ni, ti));
         }
